@@ -439,9 +439,16 @@ struct Run
             c.mirror[p] = pv;
          }
       }
-      if ((foreignOnly)&&(firstr)&&(first)) return;
+      if (foreignOnly)
+      {
+         // ... and Message boundaries are not compared either (the own nodes count towards PR_NAME_MAX_UPDATE_MESSAGE_ITEMS): one group per op
+         if (!firstr) {if (!accR.empty()) accR += ","; accR += ro.str();}
+         if (!first)  {if (!accS.empty()) accS += ","; accS += so.str();}
+         return;
+      }
       out << "[R:" << ro.str() << ";S:" << so.str() << "]";
    }
+   std::string accR, accS;
 
    // consumes every client's inbox; M{..} L{..} of the sessions that are alive, in script order
    std::string DrainInboxes()
@@ -481,6 +488,11 @@ struct Run
             }
          }
          cl.inbox.clear();
+         if (foreignOnly)
+         {
+            if ((!accR.empty())||(!accS.empty())) m1 << "[R:" << accR << ";S:" << accS << "]";
+            accR.clear(); accS.clear();
+         }
          if (!w.alive(wi)) continue;
          if (!m1.str().empty()) {if (!fm) mo << " "; fm = false; mo << "c" << si << ":" << m1.str();}
          if (!l1.str().empty()) {if (!fl) lo << " "; fl = false; lo << "c" << si << ":" << l1.str();}
